@@ -159,6 +159,30 @@ fn long_inputs(l: L, n: usize) -> Vec<String> {
         atoms.push(x.to_string());
     }
     let mut out = vec![];
+    // decimals and leading-zero runs of every length up to 60 digits (values beyond u64, u128 and f64 precision)
+    {
+        let c = vocab::cls(l);
+        let big = crate::spell::spell(l, 999_999_999_999, crate::spell::Var::default());
+        for int in [c.one.as_str(), big.as_str(), c.zero.as_str()] {
+            for d in [c.unit2.as_str(), c.one.as_str(), c.zero.as_str()] {
+                let mut s = format!("{int} {}", l.sep());
+                let mut z = String::new();
+                for k in 1..=60 {
+                    s.push(' ');
+                    s.push_str(d);
+                    out.push(s.clone());
+                    if k % 6 == 0 {
+                        out.push(format!("{s} {}", c.small_ord));
+                    }
+                    if !z.is_empty() {
+                        z.push(' ');
+                    }
+                    z.push_str(c.zero.as_str());
+                    out.push(format!("{z} {d}"));
+                }
+            }
+        }
+    }
     for a in &atoms {
         for j in ["", " ", "-"] {
             let mut s = String::with_capacity((a.len() + 1) * n);
@@ -172,6 +196,41 @@ fn long_inputs(l: L, n: usize) -> Vec<String> {
         }
     }
     out
+}
+
+/// Build (dev profile) and run `probes/deeprec`. Ok((lines, None)) = all calls returned;
+/// Ok((_, Some(what))) = the probe died or a call panicked; Err = the probe could not be built or started.
+pub fn deep_recursion_probe(n: usize, stack_kib: usize) -> Result<(usize, Option<String>), String> {
+    use std::process::{Command, Stdio};
+    let root = verif_root();
+    let target = format!("{root}/target/deeprec");
+    let b = Command::new("cargo")
+        .args(["build", "--offline", "--quiet", "--target-dir", &target])
+        .current_dir(format!("{root}/probes/deeprec"))
+        .env("CARGO_NET_OFFLINE", "true")
+        .stdin(Stdio::null())
+        .output()
+        .map_err(|e| format!("cannot run cargo for probes/deeprec: {e}"))?;
+    if !b.status.success() {
+        let err = String::from_utf8_lossy(&b.stderr);
+        return Err(format!("probes/deeprec failed to build:\n{}", err.lines().filter(|l| l.starts_with("error")).take(10).collect::<Vec<_>>().join("\n")));
+    }
+    let o = Command::new(format!("{target}/debug/deeprec-probe"))
+        .args([n.to_string(), stack_kib.to_string()])
+        .stdin(Stdio::null())
+        .output()
+        .map_err(|e| format!("cannot start deeprec-probe: {e}"))?;
+    let out = String::from_utf8_lossy(&o.stdout);
+    let err = String::from_utf8_lossy(&o.stderr);
+    let lines = out.lines().filter(|l| l.starts_with("ok ")).count();
+    if let Some(p) = out.lines().find(|l| l.starts_with("panic ")) {
+        return Ok((lines, Some(format!("a call panicked: {p}"))));
+    }
+    if !o.status.success() || !out.lines().any(|l| l == "done") {
+        let why = err.lines().find(|l| l.contains("overflow") || l.contains("abort") || l.contains("panicked")).unwrap_or("no diagnostic").to_string();
+        return Ok((lines, Some(format!("the probe process died ({}): {why}", o.status))));
+    }
+    Ok((lines, None))
 }
 
 /// child entry point: enumerate one shard, print results as JSON lines
@@ -459,12 +518,36 @@ pub fn run(tier: Tier) -> i32 {
     for (_, a) in results {
         acc.merge(a);
     }
+    // (e) very long inputs on small stacks, against a dev-profile build of the library (no tail-call
+    // elimination, no inlining): recursion whose depth grows with the input overflows there
+    let (deep_n, deep_kib) = tier.pick((12_000usize, 128usize), (60_000, 128));
+    match deep_recursion_probe(deep_n, deep_kib) {
+        Ok((lines, None)) => {
+            acc.states += lines as u64;
+            acc.traces += lines as u64 * 7;
+        }
+        Ok((_, Some(what))) => {
+            ctx.report(&mut acc, Violation {
+                lang: "*".into(),
+                entry: "deep_recursion_probe".into(),
+                input: format!("probes/deeprec: {deep_n} tokens (ordinary word, unit, thousand, conjunction; joined by space, hyphen, comma) through text2digits, replace_numbers_in_text, find_numbers, find_numbers_iter on threads with {deep_kib} KiB of stack, library built in the dev profile"),
+                threshold: None,
+                clause: "every entry point terminates and returns on very long input".into(),
+                expected: "all calls return".into(),
+                observed: what,
+            });
+        }
+        Err(e) => {
+            println!("machinery: {e}");
+            return 2;
+        }
+    }
     acc.nontrivial = acc.states;
     let cov = json!({
         "exhaustive": true,
         "rule": "(a) every string of length <= k over 21 characters; (b) every sequence of <= k atoms over the full vocabulary plus {\"\",-,--,-a,a-} joined by space and by hyphen; (c) a fixed smoke list of long inputs (NOT an exhaustive space); (d) every token stream of <= k tokens over class words and compound fragments, each plain, '~' or '!' hinted, through find_numbers, find_numbers_iter and replace_numbers_in_stream; each x 7 languages x {text2digits, replace_numbers_in_text, find_numbers, find_numbers_iter drained, replace_numbers_in_stream} x thresholds; get_interpreter_for on the strings of (a)",
         "characters": CHARS.iter().map(|c| format!("U+{:04X}", *c as u32)).collect::<Vec<_>>(),
-        "bounds": {"a_max_len": tier.pick(4, 6), "a_len6_thresholds": "0, NaN only", "b_max_atoms": tier.pick(2, 3), "c_repetitions": tier.pick(3000, 20_000)},
+        "bounds": {"a_max_len": tier.pick(4, 6), "a_len6_thresholds": "0, NaN only", "b_max_atoms": tier.pick(2, 3), "c_repetitions": tier.pick(3000, 20_000), "e_tokens": deep_n, "e_stack_kib": deep_kib},
         "thresholds": THRS.iter().map(|t| thr_name(*t)).collect::<Vec<_>>(),
         "child_processes": jobs.len(),
     });
